@@ -156,6 +156,8 @@ def body(ctx, case):
     r2 = service.call_service(ctx, dataB)
     keys2, recs2 = service.graph_keys(r2), [r["name"] for r in service.record_list(r2)]
     ctx.require(keys2 == sorted(recs2), "graph entries of a later result are exactly its own records")
+    changed = diff_state(st0, package_state())
+    ctx.require(not changed, "no module-level state of the library differs after a call with other options")
     r3 = service.call_service(ctx, dataA)
     ctx.require(freeze(service.result_view(r1)) == snap1, "a result returned earlier is not altered by later calls")
     ctx.require(service.same(service.result_view(r3), service.result_view(r1), 1e-9), "running the same input object again after another analysis gives the same result")
